@@ -481,11 +481,18 @@ def encode_lumps(w: dict) -> dict:
     return L
 
 
-def build(w: dict, *, compress: bool = False, game_sep: bool = True, dummy_game_lump: bool = True) -> bytes:
+# srctools recompresses with a 16 MiB dictionary (about 15 ms per lump), so the default compressed
+# variant compresses a representative subset: main lumps of views, 'extra' lumps of views, opaque lumps
+COMPRESS_SOME = frozenset({'ENTITIES', 'FACES', 'LEAFFACES', 'VISIBILITY', 'LIGHTING'})
+COMPRESS_GAME_SOME = frozenset({b'sprp', b'dplt'})     # dplt is the last game lump: the dummy entry matters
+
+
+def build(w: dict, *, compress=False, game_sep: bool = True, dummy_game_lump: bool = True) -> bytes:
     """Serialise the world to the bytes of a .bsp file.
 
-    compress: LZMA-compress every non-empty lump except PAKFILE and the game-lump directory, and
-    every game lump (flag bit 0, length field = uncompressed size, trailing id-0 directory entry).
+    compress: False | True (the COMPRESS_SOME subset) | 'all' (every non-empty lump except PAKFILE and
+    the game-lump directory, and every game lump).  A compressed game lump has flag bit 0, its length
+    field holds the uncompressed size, and a trailing id-0 directory entry marks the end of the last one.
     game_sep: one zero byte between consecutive game lumps (what srctools itself writes)."""
     lay = w['layout']
     raw = encode_lumps(w)
@@ -511,8 +518,9 @@ def build(w: dict, *, compress: bool = False, game_sep: bool = True, dummy_game_
             direc = bytearray(struct.pack('<i', n_entries))
             blob = bytearray()
             for k, (gid, flags, ver, data) in enumerate(game):
-                payload = lzma_pack(data) if compress else data
-                fl = (flags | 1) if compress else flags
+                comp_this = compress == 'all' or (compress and gid in COMPRESS_GAME_SOME)
+                payload = lzma_pack(data) if comp_this else data
+                fl = (flags | 1) if comp_this else flags
                 direc += struct.pack('<4sHHii', gid[::-1], fl, ver, pos + len(blob), len(data))
                 blob += payload
                 if game_sep and k != len(game) - 1:
@@ -529,7 +537,7 @@ def build(w: dict, *, compress: bool = False, game_sep: bool = True, dummy_game_
             continue
         while len(out) % 4:
             out.append(0)
-        if compress and name != 'PAKFILE':
+        if name != 'PAKFILE' and (compress == 'all' or (compress and name in COMPRESS_SOME)):
             payload = lzma_pack(data)
             table[idx] = (len(out), len(payload), ver, len(data))
         else:
